@@ -10,6 +10,7 @@ Ok(r) == r.kind = "ok"
 Reason(e) ==
   IF e.k = "ctx" THEN
        IF \E f \in {"semver", "pep440", "sv_recomposed", "pep_recomposed", "docker", "scalars"} : e[f].kind = "panic" THEN "panic"
+       ELSE IF ~InstantsOk(e.st) THEN "recorder-civil-fields"
        ELSE IF ~ValidSchema(e.sch) THEN "ok"
        ELSE LET sv == RenderSemVer(e.sch, e.st)   pp == RenderPep440(e.sch, e.st) IN
             IF ~Ok(e.semver) \/ e.semver.s # sv THEN "semver-variable"
